@@ -161,6 +161,11 @@ class ArrBase(object):
     # in-place operators: write through to the base
     def _inplace(self, f, o):
         new = elementwise(f, self, o)
+        if not isinstance(new, ArrBase):
+            if self.ndim != 0:
+                raise PyRaise('ValueError', 'non-broadcastable output operand')
+            self.update(None, lambda v=new: v)          # 0-d array: the object keeps its identity, every alias sees the new value
+            return self
         self._check_same_shape(new)
         g = new.snap()
         self.update(None, g)
@@ -437,6 +442,40 @@ class Masked(object):
         return Masked(self.n, memo(lambda *i: f(g(*i))), self.mask, self.maskobj, dtype or self.dtype)
 
 
+class MaskedRows(object):
+    """a[mask] for a 2-d array a and a 1-d boolean mask over its rows (symbolic number of rows): the selected rows, indexed -- like Masked --
+    by SOURCE row.  Supports shape, rows[:, j] (a Masked over the same mask) and np.atleast_2d."""
+    __hash__ = object.__hash__
+    ndim = 2
+
+    def __init__(self, n, ncols, src, mask, maskobj, dtype='real'):
+        self.n, self.ncols, self.src, self.mask, self.maskobj, self.dtype = n, ncols, src, mask, maskobj, dtype
+        self._len = Masked(n, lambda i: 0, mask, maskobj, 'int')
+
+    @property
+    def shape(self):
+        return (self._len.sym_len(), self.ncols)
+
+    def column(self, j):
+        j = norm_index(j, self.ncols)
+        g = self.src
+        return Masked(self.n, memo(lambda i: g(i, j)), self.mask, self.maskobj, self.dtype)
+
+    def __getitem__(self, key):
+        if isinstance(key, tuple) and len(key) == 2 and isinstance(key[0], slice) and key[0] == slice(None) and not isinstance(key[1], (slice, ArrBase, list)):
+            return self.column(key[1])
+        raise Unsupported('indexing selected rows other than rows[:, j]')
+
+
+def _decide_mask(m, n):
+    """fork the path on every entry of a short boolean mask (n <= 4); remembered per mask object, so that later reads through the same mask are concrete too"""
+    c = CTX()
+    d = c.__dict__.setdefault('decided_masks', {})
+    if id(m) not in d or d[id(m)][2] != getattr(m, 'version', None):
+        d[id(m)] = (m, [bool(m.get(i)) for i in range(n)], getattr(m, 'version', None))
+    return d[id(m)][1]
+
+
 def as_fn(x, shape):
     """snapshot element function of x broadcast to `shape` (numpy rules, trailing alignment)"""
     if isinstance(x, ArrBase):
@@ -639,6 +678,14 @@ def getitem(a, key):
     if len(key) == 1 and isinstance(key[0], ArrBase):
         m = key[0]
         if m.dtype == 'bool':
+            if a.ndim == 2 and m.ndim == 1:
+                if not dim_eq(a.shape[0], m.shape[0]):
+                    CTX().side('mask-length', sym.cmp('==', a.shape[0], m.shape[0]))
+                af = a.snap()
+                if dim_conc(a.shape[0]) and a.shape[0] <= 4:
+                    rows = [i for i, v in enumerate(_decide_mask(m, a.shape[0])) if v]
+                    return Arr((len(rows), a.shape[1]), lambda i, j, rows=rows: select([af(r, j) for r in rows], i), a.dtype)
+                return MaskedRows(a.shape[0], a.shape[1], af, m.snap(), m, a.dtype)
             if a.ndim != m.ndim:
                 raise Unsupported('boolean mask of lower rank than the array (read)')
             for d, e in zip(a.shape, m.shape):
@@ -646,7 +693,8 @@ def getitem(a, key):
                     CTX().side('mask-length', sym.cmp('==', d, e))
             if a.ndim == 1:
                 if dim_conc(a.shape[0]) and a.shape[0] <= 64:
-                    mv = [_generic(m.get(i)) for i in range(a.shape[0])]
+                    dec = getattr(CTX(), 'decided_masks', {}).get(id(m))
+                    mv = list(dec[1]) if dec is not None and dec[2] == getattr(m, 'version', None) else [_generic(m.get(i)) for i in range(a.shape[0])]
                     if all(isinstance(v, (bool, int)) for v in mv):
                         vals = [a.get(i) for i in range(a.shape[0]) if mv[i]]
                         return Arr((len(vals),), lambda i, vals=vals: select(vals, i), a.dtype)
@@ -750,6 +798,26 @@ def getitem(a, key):
     if len(v.shape) == 0:
         return base.snap()(*[s[1] for s in new])
     return v
+
+
+def np_prod(shape):
+    t = 1
+    for d in shape:
+        t *= d
+    return t
+
+
+def _select_nd(vals, shape, idx):
+    """vals[idx] for a dict over concrete index tuples and possibly symbolic indices"""
+    idx = [_generic(i) for i in idx]
+    if all(is_conc(i) for i in idx):
+        return vals[tuple(int(i) for i in idx)]
+    import itertools
+    keys = list(itertools.product(*[range(d) for d in shape]))
+    r = vals[keys[-1]]
+    for k in reversed(keys[:-1]):
+        r = ite(sym.and_(*[sym.cmp('==', i, kk) for i, kk in zip(idx, k)]), vals[k], r)
+    return r
 
 
 def compress(a, m):
@@ -1079,7 +1147,7 @@ class _NP(object):
         return Arr((1,), lambda i: x, _dtype_of(x))
 
     def atleast_2d(self, x):
-        if isinstance(x, ArrBase) and x.ndim >= 2:
+        if isinstance(x, MaskedRows) or (isinstance(x, ArrBase) and x.ndim >= 2):
             return x
         x = self.atleast_1d(x)
         if x.ndim == 1:
@@ -1337,7 +1405,19 @@ class _NP(object):
         axis = axis + x.ndim if axis < 0 else axis
         n = x.shape[axis]
         if not dim_conc(n):
-            raise Unsupported('amax along symbolic axis')
+            rest = x.shape[:axis] + x.shape[axis + 1:]
+            if not all(dim_conc(d) for d in rest) or int(np_prod(rest)) > 16:
+                raise Unsupported('amax along symbolic axis')
+            # one opaque extremum (attained + bound facts, as for a 1-d array) per position of the other, concrete, axes
+            import itertools
+            f = x.snap()
+            vals = {}
+            for idx in itertools.product(*[range(d) for d in rest]):
+                col = Arr((n,), lambda k, idx=idx: f(*(idx[:axis] + (k,) + idx[axis:])), x.dtype)
+                vals[idx] = self._minmax(col, None, kind)
+            if not rest:
+                return vals[()]
+            return Arr(tuple(rest), lambda *idx: _select_nd(vals, rest, idx), x.dtype)
         f = x.snap()
         shape = x.shape[:axis] + x.shape[axis + 1:]
         return Arr(shape, lambda *idx: _fold(op, [f(*(idx[:axis] + (k,) + idx[axis:])) for k in range(n)]), x.dtype)
@@ -1602,7 +1682,8 @@ class _NP(object):
                 full[k] = i
             return f(*full)
         if not shape:
-            return fn()        # numpy gives a 0-d array; scalars behave the same in the modelled code
+            # numpy gives a 0-d ARRAY: an object with identity, so that `v = np.squeeze(a); v /= 2` changes every alias of v; every other use unwraps it
+            return Arr((), lambda: fn(), a.dtype)
         return Arr(shape, fn, a.dtype)
 
     def expand_dims(self, a, axis):
